@@ -164,10 +164,17 @@ def run(ctx):
         l0_conc(ctx, "t4", 4, ["owner", "weak"], ["reset1", "lock", "wreset"], live=False)
         conc_phase(ctx, "impl-t2", exe, two, props)
         conc_phase(ctx, "impl-t2-noclr", exe, [s for s in two if "none" not in s and ("lock" in s or "reset1" in s)], props, clr=False)
-        three = [scen([a, b, c]) for a in [("owner", "reset1"), ("both", "reset1"), ("owner", "share")]
-                 for b in [("weak", "lock"), ("both", "lock"), ("weak", "wreset")]
-                 for c in [("weak", "lock"), ("weak", "wreset"), ("owner", "reset1"), ("both", "wfrom")]]
-        conc_phase(ctx, "impl-t3", exe, three, props)
+        three = [scen([a, b, c]) for a, b, c in [
+            (("owner", "reset1"), ("weak", "lock"), ("weak", "lock")),
+            (("owner", "reset1"), ("weak", "lock"), ("weak", "wreset")),
+            (("both", "reset1"), ("both", "lock"), ("weak", "lock")),
+            (("owner", "share"), ("weak", "lock"), ("owner", "reset1")),
+            (("owner", "reset1"), ("both", "wfrom"), ("weak", "lock")),
+            (("both", "lock"), ("both", "lock"), ("owner", "reset1")),
+            (("owner", "reset1"), ("owner", "get1"), ("weak", "lock")),
+            (("owner", "uniq1"), ("weak", "lock"), ("owner", "reset1"))]]
+        # exhaustive per scenario up to a budget of schedules (the trace re-logs the shared prefix of every run)
+        conc_phase(ctx, "impl-t3", exe, three, props, maxruns=15000)
         conc_phase(ctx, "rand-t4", exe, FOUR, props, maxruns=-40000)
     ctx.cov["exhaustive"] = not ctx.violations and not ctx.cov["spec_drift"]
     ctx.assumptions += [
